@@ -306,30 +306,42 @@ func (e *vestEnv) genOp(r *rand.Rand, now time.Time) vOp {
 	if op.custom && r.Intn(8) == 0 {
 		// the same addresses in their other valid spelling (bech32 is case-insensitive as a
 		// whole): the signer and the account are the same, only the string differs
-		respellAddresses(op.msg)
-		op.respelled = true
+		op.respelled = respellAddresses(op.msg, r)
 		op.desc += " [uppercase addresses]"
 	}
 	return op
 }
 
-// respellAddresses upper-cases every valid bech32 account address held in a string field.
-func respellAddresses(msg sdk.Msg) {
+// respellAddresses upper-cases valid bech32 account addresses held in string fields: all of
+// them, or (half of the time) only some. It reports whether the first one (the owner / sender
+// of every vesting message) was respelled.
+func respellAddresses(msg sdk.Msg, r *rand.Rand) (firstRespelled bool) {
 	v := reflect.ValueOf(msg)
 	if v.Kind() != reflect.Ptr || v.Elem().Kind() != reflect.Struct {
-		return
+		return false
 	}
 	v = v.Elem()
+	some := r.Intn(2) == 0
+	first := true
 	for i := 0; i < v.NumField(); i++ {
 		f := v.Field(i)
 		if f.Kind() == reflect.String && f.CanSet() {
 			if _, err := sdk.AccAddressFromBech32(f.String()); err == nil {
+				isFirst := first
+				first = false
+				if some && r.Intn(2) == 0 {
+					continue
+				}
 				if _, err := sdk.AccAddressFromBech32(strings.ToUpper(f.String())); err == nil {
 					f.SetString(strings.ToUpper(f.String()))
+					if isFirst {
+						firstRespelled = true
+					}
 				}
 			}
 		}
 	}
+	return firstRespelled
 }
 
 func (e *vestEnv) genOp0(r *rand.Rand, now time.Time) vOp {
